@@ -116,6 +116,41 @@ static bool code_ok(void) {{
                       desc=f"lemma: one decoding step of get_simplex_vertices inverts the encoding (Bitfield_encoding<{ST}>, simplices with <= 5 vertices)"))
 
 
+def simplex_vertices_units(U):
+    """Rips_filtration::get_simplex_vertices over Bitfield_encoding: decodes the code of a simplex into its vertices,
+    largest first (simplices with at most 5 vertices, bounded)"""
+    for sname, ST, DIG in (("u64", "uint64_t", 64), ("u128", "unsigned __int128", 128)):
+        TD = {"vertex_t": "int", "dimension_t": "int8_t", "simplex_t": ST}
+        SUBS = [(r"static_assert\([^;]*\);", "", 0), (r"std::numeric_limits<simplex_t>::digits", "VP_DIGITS", 0)]
+        G = ND + f"""#define VP_DIGITS {DIG}
+int bits_per_vertex; int extra_bits;
+int g_v[5]; int g_k; {ST} g_code; int g_out[5];
+static bool code_ok(void) {{
+  bool ok = g_k >= 1 && g_k <= 5 && bits_per_vertex >= 1 && bits_per_vertex <= 31 && bits_per_vertex * g_k <= VP_DIGITS; {ST} c = 0;
+  for (int j = 0; j < 5; j++) if (j < g_k) {{ ok = ok && g_v[j] >= 0 && (uint64_t)g_v[j] < ((uint64_t)1 << bits_per_vertex) && (j == 0 || g_v[j] > g_v[j - 1]); c += (({ST})g_v[j]) << (bits_per_vertex * j); }}
+  return ok && c == g_code;
+}}
+static bool decoded_ok(void) {{ bool ok = true; for (int j = 0; j < 5; j++) if (j < g_k) ok = ok && g_out[j] == g_v[g_k - 1 - j]; return ok; }}
+"""
+        f_enc = Fn(RP, r"simplex_t operator\(\)\(vertex_t n, dimension_t k\) const", "bf_encode", "", within=r"class Bitfield_encoding \{", sig_subs=[(r"operator\(\)", "bf_encode")], subs=SUBS)
+        f_max = Fn(RP, r"vertex_t get_max_vertex\(const simplex_t idx, dimension_t k, const vertex_t\) const", "bf_get_max_vertex", "", within=r"class Bitfield_encoding \{",
+                   sig_subs=[(r"const vertex_t\)", "const vertex_t vp_unused)")], subs=SUBS)
+        f_gsv = Fn(RP, r"OutputIterator get_simplex_vertices\(simplex_t idx, const dimension_t dim, vertex_t n,\s*OutputIterator out\) const", "get_simplex_vertices", """
+__CPROVER_requires(code_ok() && idx == g_code && dim == g_k - 1 && n >= 1 && out == g_out)
+__CPROVER_ensures(decoded_ok())
+__CPROVER_ensures(__CPROVER_return_value == g_out + (g_k - 1))
+__CPROVER_assigns(g_out)
+""", sig_subs=[(r"OutputIterator", "int*", 2)], subs=[(r"simplex_encoding\.get_max_vertex\(", "bf_get_max_vertex("), (r"simplex_encoding\(", "bf_encode(")],
+                   canary=(r"idx -= bf_encode\(n, k\);", "idx -= bf_encode(n, k - 1);"))
+        U.append(Unit(f"bitfield.{sname}.get_simplex_vertices", "C11", [f_enc, f_max, f_gsv], enforce="get_simplex_vertices", typedefs=TD, globals_=G, unwind=7, route="B",
+                      bound="simplices with at most 5 vertices", inputs=["g_v", "g_k", "bits_per_vertex"],
+                      harness=H("  for (int j = 0; j < 5; j++) g_v[j] = nondet_int();\n  g_k = nondet_int(); bits_per_vertex = nondet_int();\n"
+                                f"  __CPROVER_assume(g_k >= 1 && g_k <= 5 && bits_per_vertex >= 1 && bits_per_vertex <= 31 && bits_per_vertex * g_k <= VP_DIGITS);\n"
+                                f"  g_code = 0; for (int j = 0; j < 5; j++) if (j < g_k) g_code += (({ST})g_v[j]) << (bits_per_vertex * j);",
+                                "get_simplex_vertices(g_code, (int8_t)(g_k - 1), 1 << 30, g_out);"),
+                      desc=f"get_simplex_vertices over Bitfield_encoding<{ST}>: the code of a simplex is decoded into exactly its vertices, largest first"))
+
+
 def coeff_units(U):
     """entry_with_coeff_t packing: index << bits | (coefficient - 1)"""
     for sname, ST, DIG in (("u64", "uint64_t", 64), ("u128", "unsigned __int128", 128)):
@@ -387,14 +422,74 @@ __CPROVER_assigns(B, extra_bits, g_thrown)
                   desc="Cns_encoding constructor: every entry B[j][i] of the table equals the binomial coefficient C(i, j) (ghost indices), no spurious overflow refusal"))
 
 
+def dispatcher_units(U):
+    """help1: the bit budget that decides the simplex encoding, and ripser_auto's enclosing radius"""
+    c_log = """
+__CPROVER_requires(n >= 1)
+__CPROVER_ensures(__CPROVER_return_value >= 0 && __CPROVER_return_value <= 32)
+__CPROVER_ensures((uint64_t)(unsigned)__CPROVER_old(n) <= ((uint64_t)1 << __CPROVER_return_value))
+__CPROVER_ensures(__CPROVER_return_value == 0 || ((uint64_t)1 << (__CPROVER_return_value - 1)) < (uint64_t)(unsigned)__CPROVER_old(n))
+__CPROVER_assigns()
+"""
+    G = ND + "typedef int vertex_t;\nint g_bits_per_vertex, g_bits_for_coeff, g_dim_max_out;\n"
+    con = """
+__CPROVER_requires(n >= 2 && n <= 1000000 && dim_max >= 0 && dim_max <= 100 && modulus >= 2 && modulus <= 65521)
+__CPROVER_ensures(g_dim_max_out == (__CPROVER_old(dim_max) > n - 2 ? n - 2 : __CPROVER_old(dim_max)))
+__CPROVER_ensures(((uint64_t)n <= ((uint64_t)1 << g_bits_per_vertex)) && (g_bits_per_vertex == 0 || ((uint64_t)1 << (g_bits_per_vertex - 1)) < (uint64_t)n))
+__CPROVER_ensures(((uint64_t)(modulus - 1) <= ((uint64_t)1 << g_bits_for_coeff)) && (g_bits_for_coeff == 0 || ((uint64_t)1 << (g_bits_for_coeff - 1)) < (uint64_t)(modulus - 1)))
+__CPROVER_ensures(__CPROVER_return_value == g_bits_per_vertex * (g_dim_max_out + 2) + g_bits_for_coeff)
+__CPROVER_assigns(g_bits_per_vertex, g_bits_for_coeff, g_dim_max_out)
+"""
+    fn = Fn(RP, r"void help1\(DistanceMatrix&& dist, int dim_max, typename DistanceMatrix::value_t threshold, unsigned modulus, OutDim&& output_dim, OutPair&& output_pair\)",
+            "bit_budget", con, piece={"kind": "slice", "first": r"if \(dim_max > n - 2\)", "last": r"int bitfield_size = [^;]*;",
+                                      "sig": "int bit_budget(int n, int dim_max, unsigned modulus)", "epilogue": "g_bits_per_vertex = bits_per_vertex; g_bits_for_coeff = bits_for_coeff; g_dim_max_out = dim_max; return bitfield_size;"},
+            canary=(r"\(dim_max \+ 2\)", "(dim_max + 1)"))
+    fl = Fn(RP, r"constexpr int log2up\(vertex_t n\)", "log2up", c_log)
+    U.append(Unit("dispatcher.bit_budget", "C11", [fl, fn], enforce="bit_budget", replace=["log2up"], globals_=G, inputs=["in_n", "in_d", "in_m"],
+                  harness=H("  int in_n = nondet_int(), in_d = nondet_int(); unsigned in_m = nondet_uint();", "bit_budget(in_n, in_d, in_m);"),
+                  desc="help1: dim_max is clamped to n - 2 and the bit budget that selects the encoding is bits_per_vertex * (dim_max + 2) + bits_for_coeff with both logarithms exact - i.e. exactly what Bitfield_encoding(n, dim_max + 2) plus the coefficient need (so the chosen encoding never refuses)"))
+    # enclosing radius: threshold = min_i max_j dist(i, j)
+    G2 = ND + """
+#include <math.h>
+typedef int vertex_t; typedef float value_t;
+#define NPT 4
+value_t g_d[NPT][NPT]; int g_n;
+#define VP_DIST(i, j) (g_d[(i)][(j)])
+#define VP_NEG_INF (-INFINITY)
+"""
+    con2 = """
+__CPROVER_requires(g_n >= 1 && g_n <= NPT && !isnan(threshold) && no_nan())
+__CPROVER_ensures(__CPROVER_return_value == radius_spec(__CPROVER_old(threshold)))
+__CPROVER_assigns()
+"""
+    spec2 = """
+static bool no_nan(void) { bool ok = true; for (int i = 0; i < NPT; i++) for (int j = 0; j < NPT; j++) ok = ok && !isnan(g_d[i][j]); return ok; }
+/* min(threshold, min over points of the largest distance from that point) */
+static value_t radius_spec(value_t t) { for (int i = 0; i < NPT; i++) if (i < g_n) { value_t r = -INFINITY; for (int j = 0; j < NPT; j++) if (j < g_n && r < g_d[i][j]) r = g_d[i][j]; if (r < t) t = r; } return t; }
+"""
+    fn2 = Fn(RP, r"void ripser_auto\(DistanceMatrix dist, int dim_max, typename DistanceMatrix::value_t threshold, unsigned modulus, OutDim&& output_dim, OutPair&& output_pair\)",
+             "enclosing_radius", con2, piece={"kind": "loop", "ordinal": 0, "sig": "value_t enclosing_radius(value_t threshold)"},
+             subs=[(r"dist\.size\(\)", "g_n"), (r"-std::numeric_limits<value_t>::infinity\(\)", "VP_NEG_INF"), (r"std::max\(", "VP_MAX("), (r"std::min\(", "VP_MIN("), (r"dist\(i, j\)", "VP_DIST(i, j)")],
+             canary=(r"VP_MIN\(threshold, r_i\)", "VP_MAX(threshold, r_i)"))
+    # the piece is the BODY of the outer loop; wrap it: the driver's piece gives the loop body only, so use a slice instead
+    fn2.piece = {"kind": "slice", "first": r"for \(vertex_t i = 0; i < dist\.size\(\); \+\+i\) \{\s*value_t r_i", "last": r"\}\s*(?=ripser\()",
+                 "sig": "value_t enclosing_radius(value_t threshold)", "epilogue": "return threshold;"}
+    U.append(Unit("dispatcher.enclosing_radius", "C11", [spec2, fn2], enforce="enclosing_radius", globals_=G2, unwind=6, route="B", bound="at most 4 points",
+                  inputs=["in_t", "g_n", "g_d"],
+                  harness=H("  for (int i = 0; i < NPT; i++) for (int j = 0; j < NPT; j++) g_d[i][j] = nondet_float();\n  g_n = nondet_int(); value_t in_t = nondet_float();", "enclosing_radius(in_t);"),
+                  desc="ripser_auto without threshold (dense input): the threshold becomes min(threshold, min_i max_j dist(i, j)) - the enclosing radius beyond which the Rips complex is a cone"))
+
+
 def units(tier):
     U = []
+    dispatcher_units(U)
     cns_table_units(U)
     cns_units(U)
     compressed_matrix_units(U)
     enumerator_units(U)
     arith_units(U)
     bitfield_units(U)
+    simplex_vertices_units(U)
     coeff_units(U)
     fake128_units(U)
     matrix_units(U)
